@@ -359,7 +359,8 @@ extern "C" fn shim_cb(op: *const libc::c_char, a: *const libc::c_char, b: *const
         std::process::abort();
     }
     // fault placements at system-call granularity: FaultSpec { site: "sys", first_occ = n, burst }
-    if g.faults.iter().any(|f| f.site.starts_with("sys:") && n >= f.first_occ && n < f.first_occ + f.burst) {
+    // (a listing is never failed here, also not inside a burst: see DESIGN, C19 (d))
+    if op != "sys:opendir" && g.faults.iter().any(|f| f.site.starts_with("sys:") && n >= f.first_occ && n < f.first_occ + f.burst) {
         // recorded under the name of the hook site the call corresponds to
         let site = match op {
             "sys:rename" | "sys:link" => "rename",
